@@ -150,6 +150,12 @@ func NewAccount(w http.ResponseWriter, r *http.Request) {
 				return
 			}
 			if err := db.UpdateExternalAccountKey(ctx, prov.ID, eak); err != nil {
+				// the account was stored before the key could be bound to it: it must not stay usable
+				acc.Status = acme.StatusDeactivated
+				if uerr := db.UpdateAccount(ctx, acc); uerr != nil {
+					render.Error(w, r, acme.WrapErrorISE(uerr, "error deactivating account after failed external account binding"))
+					return
+				}
 				render.Error(w, r, acme.WrapErrorISE(err, "error updating external account binding key"))
 				return
 			}
